@@ -568,8 +568,29 @@ def year_alignment_rule(R, lib, T):
                     if rv in latest:
                         pol_recv, A = latest[rv]
                         if not M.is_const():
-                            R.violation('D', cc, e.loc, 'month argument %r is not a constant' % M)
-                            continue
+                            # the month is computed: "the month of this rule" (the meaning of the constant 0), possibly behind a test of
+                            # rule.isNull(), is recognised; anything else is left to the interpreted comparisons F / G / H
+                            me_ = e.a[2][1]
+                            while me_.k == 'cast':
+                                me_ = me_.a[2]
+                            if me_.k == 'var':
+                                d_ = [x for x in walk_stmts(f.body) if x.k == 'decl' and x.a[0] == me_.a[0] and x.a[2] is not None]
+                                a_ = [x for x in walk_stmts(f.body) if x.k == 'assign' and x.a[0].k == 'var' and x.a[0].a[0] == me_.a[0]]
+                                srcs_ = [x.a[2] for x in d_] + [x.a[1] for x in a_]
+                            else:
+                                srcs_ = [me_]
+                            def strip_(x_):
+                                while x_.k == 'cast':
+                                    x_ = x_.a[2]
+                                return x_
+                            srcs_ = [strip_(x_) for x_ in srcs_]
+                            of_rule = bool(srcs_) and all(any(c_.k == 'call' and c_.a[0].endswith('::inMonth') and c_.a[1] is not None and path_of(c_.a[1]) == rv
+                                                              for c_ in walk_expr(x_)) or (x_.k == 'const' and x_.a[0] == 1 and len(srcs_) > 1) for x_ in srcs_)
+                            if not of_rule:
+                                R.undecided_obligation('D', cc, e.loc, 'the month argument %r is computed in a way this rule does not follow; the pairing of era, rule and label year '
+                                                       'at this site is decided by the interpreted comparisons F / G / H only' % M)
+                                continue
+                            M = Poly.const(0)
                         a_eff = A if strict else A + Poly.const(1)
                         want = L + Poly.const(1 if M.const_value() == 0 else 0)
                         if a_eff != want:
